@@ -104,6 +104,8 @@ def dstep (st : St) : List String → St × String
   | ["dump"] => (st, dump st)
   | ["glob", p, h] =>
     (st, match dec p, dec h with | some p, some h => encB (glob p h) | _, _ => "bad-op")
+  | ["intersect", p, q] =>
+    (st, match dec p, dec q with | some p, some q => encB (intersect p q) | _, _ => "bad-op")
   | ["isUserHostmask", s] => (st, match dec s with | some s => encB (isUserHostmask s) | none => "bad-op")
   | _ => (st, "bad-op")
 
